@@ -52,6 +52,37 @@ type FuncContract struct {
 	Binds     []Clause            // locations the result must commit to (relational obligations)
 	Opaque    map[string]bool     // callees (short names) treated as unknown code at call sites of this function
 	DeadPaths int // number of path conditions the contracts make infeasible (reviewed)
+	SortedBy  []SortSpec
+	Dynamic   map[string][]Clause // local function variable -> locations its calls are assumed to preserve
+	AtReturn  []Clause // at-return assert[label] e: postconditions that may name locals
+	DynamicFail map[string]string// local function variable -> Bool ghost recording "its call returned an error"
+	Covers    []*CoverSpec       // reachable[label] "<source text>": the statement must not be dead code under the contracts
+}
+
+// CoverSpec: `reachable[label] "<text>"` names a statement of the function by (a fragment of) its
+// source line. The obligation `<func>/reachable[label]` fails when the solver PROVES, from the
+// contracts of the callees and the function's own requires, that the statement can never execute.
+type CoverSpec struct {
+	Label string
+	Text  string
+	Seen  bool
+	Line  int
+}
+
+func clauseSrcs(cs []Clause) string {
+	var s []string
+	for _, c := range cs {
+		s = append(s, c.Src)
+	}
+	return strings.Join(s, ", ")
+}
+
+// SortSpec: `sorted <slice> by <order>` - the order a sort call establishes on a named slice.
+type SortSpec struct {
+	Name, Label, Order string
+	Line               int
+	Seen               int
+	AssumeOrdered      bool
 }
 
 func (c *FuncContract) Key() string { return c.Pkg + "." + c.Name }
@@ -80,6 +111,7 @@ type ContractSet struct {
 	UFs   map[string]*UFDecl
 	Ghosts map[string]*GhostDecl
 	Files []string
+	Writers []*WriterDecl
 }
 
 func NewContractSet() *ContractSet {
@@ -91,7 +123,7 @@ func NewContractSet() *ContractSet {
 
 var clauseKW = map[string]bool{"requires": true, "ensures": true, "modifies": true, "loop": true, "lock-balanced": true,
 	"terminates": true, "thin": true, "nopanic": true, "mode": true, "params": true, "prop": true, "pure": true, "noinline": true, "trusted": true,
-	"at-call": true, "nodeadlock": true, "inline-all": true, "at-call-inlined": true, "dead-paths": true, "callback": true, "opaque": true, "binds": true, "binds-accept": true}
+	"at-call": true, "nodeadlock": true, "inline-all": true, "at-call-inlined": true, "dead-paths": true, "sorted": true, "comparator": true, "dynamic": true, "callback": true, "opaque": true, "binds": true, "binds-accept": true, "reachable": true, "at-return": true}
 
 // ParseContractFile reads //@ lines. pkgPath is the package the file belongs to ("" for dep files,
 // which must then use full names "pkgpath.Func").
@@ -122,7 +154,7 @@ func (cs *ContractSet) ParseContractFile(path, pkgPath string) error {
 		if b := strings.Index(first, "["); b > 0 {
 			first = first[:b]
 		}
-		isKW := clauseKW[first] || first == "func" || first == "assume" || first == "iface" || first == "spec" || first == "uf" || first == "ghost"
+		isKW := clauseKW[first] || first == "func" || first == "assume" || first == "iface" || first == "spec" || first == "uf" || first == "ghost" || first == "writers"
 		if !isKW && len(lines) > 0 {
 			lines[len(lines)-1].s += " " + t
 			continue
@@ -206,6 +238,13 @@ func (cs *ContractSet) ParseContractFile(path, pkgPath string) error {
 				return fmt.Errorf("%s:%d: duplicate spec %s", path, l.n, sf.Name)
 			}
 			cs.Specs[sf.Name] = sf
+			cur = nil
+		case "writers":
+			w, err := parseWriters(rest, pkgPath, path, l.n)
+			if err != nil {
+				return fmt.Errorf("%s:%d: %v", path, l.n, err)
+			}
+			cs.Writers = append(cs.Writers, w)
 			cur = nil
 		default:
 			if cur == nil {
@@ -331,6 +370,22 @@ func (cs *ContractSet) ParseContractFile(path, pkgPath string) error {
 					cur.AtCall = map[string][]Clause{}
 				}
 				cur.AtCall[f[1]] = append(cur.AtCall[f[1]], c)
+			case "at-return":
+				// at-return assert[label] <expr>: like ensures, checked at every return, but the expression
+				// may name local variables of the function (their values at that return). On a return
+				// where a named local does not exist yet, a clause `A ==> B` demands that A is false.
+				if len(f) < 3 || !strings.HasPrefix(f[1], "assert") {
+					return fmt.Errorf("%s:%d: at-return assert[label] <expr>", path, l.n)
+				}
+				srest := strings.TrimSpace(l.s[strings.Index(l.s, " "+f[1]+" ")+len(f[1])+2:])
+				c, err := mk(srest)
+				if err != nil {
+					return err
+				}
+				if b := strings.Index(f[1], "["); b > 0 && strings.HasSuffix(f[1], "]") {
+					c.Label = f[1][b+1 : len(f[1])-1]
+				}
+				cur.AtReturn = append(cur.AtReturn, c)
 			case "binds", "binds-accept":
 				// binds <lvalue>, ...: the (single) result commits to each listed location (relational.go)
 				// binds-accept <lvalue>, ...: two runs that both return a nil error agree on the location
@@ -366,6 +421,44 @@ func (cs *ContractSet) ParseContractFile(path, pkgPath string) error {
 				for _, g := range strings.Fields(strings.ReplaceAll(strings.Join(f[3:], " "), ",", " ")) {
 					cur.Callbacks[f[1]] = append(cur.Callbacks[f[1]], g)
 				}
+			case "dynamic":
+				// dynamic <variable> preserves <lvalue>, ...: ASSUMPTION that calls of the function value held
+				// by that local variable (a dispatch-table entry) leave the listed locations unchanged
+				if len(f) == 4 && f[2] == "failure" && strings.HasPrefix(f[3], "$") {
+					// dynamic <variable> failure $g: after a call of that function value the Bool ghost $g
+					// records whether its (last, error) result was non-nil
+					if cur.DynamicFail == nil {
+						cur.DynamicFail = map[string]string{}
+					}
+					cur.DynamicFail[f[1]] = f[3]
+					continue
+				}
+				if len(f) < 4 || f[2] != "preserves" {
+					return fmt.Errorf("%s:%d: dynamic <variable> preserves <lvalue>, ...", path, l.n)
+				}
+				if cur.Dynamic == nil {
+					cur.Dynamic = map[string][]Clause{}
+				}
+				lv := strings.TrimSpace(l.s[strings.Index(l.s, " preserves ")+len(" preserves "):])
+				for _, part := range splitTop(lv, ',') {
+					c, err := mk(strings.TrimSpace(part))
+					if err != nil {
+						return err
+					}
+					cur.Dynamic[f[1]] = append(cur.Dynamic[f[1]], c)
+				}
+			case "sorted", "comparator":
+				// comparator[label] <slice variable> by <order>: obligation (1) only (the ordered-result fact
+				// is a two-variable quantifier that slows unrelated proofs of a large function down)
+				// sorted[label] <slice variable> by <strict order over $a $b>
+				// At the sort.Slice / sort.SliceStable call on that slice: (1) obligation - the comparator
+				// closure computes exactly the stated order on the elements at its two indices; (2) after
+				// the call the slice is ordered: no later element comes before an earlier one.
+				i := strings.Index(rest, " by ")
+				if i < 0 {
+					return fmt.Errorf("%s:%d: sorted <slice> by <order over $a $b>", path, l.n)
+				}
+				cur.SortedBy = append(cur.SortedBy, SortSpec{Name: strings.TrimSpace(rest[:i]), Label: label, Order: strings.TrimSpace(rest[i+4:]), Line: l.n, AssumeOrdered: kw == "sorted"})
 			case "dead-paths":
 				n, err := strconv.Atoi(rest)
 				if err != nil {
@@ -378,6 +471,20 @@ func (cs *ContractSet) ParseContractFile(path, pkgPath string) error {
 				cur.Params = strings.Fields(strings.ReplaceAll(rest, ",", " "))
 			case "prop":
 				cur.Props = append(cur.Props, strings.Fields(strings.ReplaceAll(rest, ",", " "))...)
+			case "reachable":
+				txt := strings.Trim(rest, `"`)
+				if txt == "" || label == "" {
+					return fmt.Errorf("%s:%d: reachable[label] \"<source text>\"", path, l.n)
+				}
+				cur.Covers = append(cur.Covers, &CoverSpec{Label: label, Text: txt, Line: l.n})
+			case "nopanic":
+				// `nopanic` : every index, dereference and panic site; `nopanic explicit`: only the
+				// panic(...) statements of the source (each must be unreachable)
+				if rest == "explicit" {
+					cur.Flags["nopanic-explicit"] = true
+				} else {
+					cur.Flags[kw] = true
+				}
 			default:
 				cur.Flags[kw] = true
 			}
